@@ -62,6 +62,9 @@ def c08(tier):
         R("nonfinite", hang_secs=4, max_hangs=6, hang_is_verdict=True),
         R("nonfinite", profile="checked", hang_secs=4, max_hangs=6, hang_is_verdict=True),
         R("nonfinite", args={"mode": "starts"}, hang_secs=6, max_hangs=6, hang_is_verdict=True),
+        # models that fail transiently honour the trait contract as well: a failure at every model call of a whole
+        # fit_with_statistics (the optimizer's final restoring evaluation included) must not panic either
+        R("faults", args={"phases": "fitstats"}),
     ]
 
 
@@ -159,7 +162,7 @@ RULES = {
     "C07": "scenario = (family, N, provenance, f32|f64, seq|par, single|mrhs + observation columns, weight kind, threshold kind, alphabet of 4-9 parameter vectors incl. signed zeros, duplicates, sub-threshold steps, and decay constants scaled by 1e-17..1e17; families incl. a 4-parameter function declared in permuted order and incidence patterns with gaps; sizes up to 8200 samples); within a scenario ALL histories of set_params over the alphabet up to depth d are executed on the live problem (d=2 quick, 3 thorough; C10: 3/4), plus three long deterministic walks per scenario (alphabet cyclically x3, every entry repeated x4, ping-pong; 9n steps) beyond the depth bound; state = everything the LeastSquaresProblem interface exposes (bit patterns of params, residuals, coefficients, Jacobian); non-trivial = distinct reached states whose rank class is decidable (Full or Truncated) and on which the heavy oracle ran; every scenario runs the mrhs subject and one single-rhs problem per column in lock-step; scenarios = all ordered selections of 1..3 columns from a 6-column pool (+ selections with 4, 5, 33 and 70 columns, and columns whose magnitudes differ by more than the exponent range of the scalar type)",
     "C10": "scenario = (family, N, provenance, f32|f64, seq|par, single|mrhs + observation columns, weight kind, threshold kind, alphabet of 4-9 parameter vectors incl. signed zeros, duplicates, sub-threshold steps, and decay constants scaled by 1e-17..1e17; families incl. a 4-parameter function declared in permuted order and incidence patterns with gaps; sizes up to 8200 samples); within a scenario ALL histories of set_params over the alphabet up to depth d are executed on the live problem (d=2 quick, 3 thorough; C10: 3/4), plus three long deterministic walks per scenario (alphabet cyclically x3, every entry repeated x4, ping-pong; 9n steps) beyond the depth bound; state = everything the LeastSquaresProblem interface exposes (bit patterns of params, residuals, coefficients, Jacobian); non-trivial = distinct reached states whose rank class is decidable (Full or Truncated) and on which the heavy oracle ran; additionally scenarios whose alphabet contains a parameter vector the model rejects (at set_params or at evaluation), signed zeros, parameter vectors closer together than the user threshold, overflowing parameters; every first-visited state is re-observed under four heap poisons, against a fresh problem and (parallel subjects) inside worker pools of 1 and 3 threads",
     "C11": "scenario = (family, N, provenance, f32|f64, seq|par, single|mrhs + observation columns, weight kind, threshold kind, alphabet of 4-9 parameter vectors incl. signed zeros, duplicates, sub-threshold steps, and decay constants scaled by 1e-17..1e17; families incl. a 4-parameter function declared in permuted order and incidence patterns with gaps; sizes up to 8200 samples); within a scenario ALL histories of set_params over the alphabet up to depth d are executed on the live problem (d=2 quick, 3 thorough; C10: 3/4), plus three long deterministic walks per scenario (alphabet cyclically x3, every entry repeated x4, ping-pong; 9n steps) beyond the depth bound; state = everything the LeastSquaresProblem interface exposes (bit patterns of params, residuals, coefficients, Jacobian); non-trivial = distinct reached states whose rank class is decidable (Full or Truncated) and on which the heavy oracle ran; every scenario runs the parallel subject and its sequential twin in lock-step (real rayon)",
-    "C08": "case = a finite baseline problem (family x N in {1,2,3,4(,8)} x S in {1,2} x provenance x flavour x weights x f32/f64) with <= k positions (each element of x, y, w, the initial alpha, or a later set_params vector) replaced by one of 14 IEEE special values; every case runs build, queries, set_params, fit, fit_with_statistics and all statistics accessors; non-trivial = the basis matrix at the starting parameters is non-finite (the path the property is about). Mode starts (finite inputs only): family x N in {M, M+P, 8, 16, 33} x provenance x flavour x weights x f32/f64 x observation scale (1, tiny, huge, near overflow) x every combination of multipliers (quick 4, thorough 10 values from -10 to 100, wrong signs included) of the generating parameters as the starting point; each case runs the same pipeline",
+    "C08": "case = a finite baseline problem (family x N in {1,2,3,4(,8)} x S in {1,2} x provenance x flavour x weights x f32/f64) with <= k positions (each element of x, y, w, the initial alpha, or a later set_params vector) replaced by one of 14 IEEE special values; every case runs build, queries, set_params, fit, fit_with_statistics and all statistics accessors; non-trivial = the basis matrix at the starting parameters is non-finite (the path the property is about). Mode starts (finite inputs only): family x N in {M, M+P, 8, 16, 33} x provenance x flavour x weights x f32/f64 x observation scale (1, tiny, huge, near overflow) x every combination of multipliers (quick 4, thorough 10 values from -10 to 100, wrong signs included) of the generating parameters as the starting point; each case runs the same pipeline. Fault sweep (engine faults, phases fit + statistics): every domain model and problem of the C09 sweep with one model failure (set_params / eval / eval_partial_deriv, transient or sticky) injected at every model-call index of the fault-free run, fit and fit_with_statistics must return (Ok or Err) without panicking",
     "C09": "scenarios incl. parallel problems whose Jacobian has more than 2^15 entries (128 samples x 70 right-hand sides, 8200 samples); case = (scenario, phase in {caller history <= d over 3 parameter vectors, fit, fit_with_statistics}, failing model-call index k < n, transient|persistent, model keeps|stores rejected parameters); non-trivial = the injected failure actually fired",
     "C12": "case = (family/shape with N from M to M+P+3, width, provenance, weights, one of four solver set-ups (default, huge xtol, zero observations, zero tolerances = a failed fit), build profile) plus a failure at every model call of the statistics phase, plus bit-exact perfect fits (one basis function, exactly representable values), plus every case of the C13 grid (and, thorough, of the C14 grid); non-trivial = statistics code entered (successful fit) and either the identities were checked or the under-determined/faulted case was rejected",
     "C13": "case = (incidence pattern | Z1-Z5, N incl. values around 128/1024, weights incl. zero/negative entries and KeepOnly(M+P[+1,+3]) = exact zeros everywhere else, noise vector, amplitude 1e-5..4e9, width, provenance[, parallel]); builder call order varied with (N+S) mod 3; non-trivial = covariance compared entry-wise with the reference AND all reference variances pairwise distinct (ordering observable)",
